@@ -83,11 +83,38 @@ def rule_strip_provenance(ctx, rep):
 
 
 class LenMatch(AbstractValue):
-    """A successful match of the list-marker pattern on a tab-free line, known by group lengths only:
-    group 1 = I spaces, group 2 = leader of length D, group 3 = N spaces (or end of line)."""
+    """A successful match of the list-marker pattern on a tab-free line, known by the lengths of its parts only.
+    The layout is read off the pattern itself: every top-level item of the regex gets a length symbol (capture
+    group k: `g<k>`, anything else: `x<j>`), so a pattern that grows a part between the groups is modelled too.
+    For the pattern as it is: g1 = indentation I, g2 = marker D, g3 = spaces after the marker N."""
 
-    def __init__(self):
-        self.I, self.D, self.N = Aff.sym('I'), Aff.sym('D'), Aff.sym('N')
+    def __init__(self, pattern=None):
+        from .. import rx
+        self.layout = []          # [(symbol, group id or None)]
+        if pattern is not None:
+            tree = rx.parse(pattern)
+            j = 0
+            for op, av in tree:
+                if op == rx.C.SUBPATTERN and av[0] is not None:
+                    self.layout.append(('g%d' % av[0], av[0]))
+                elif op == rx.C.AT:
+                    continue
+                else:
+                    j += 1
+                    self.layout.append(('x%d' % j, None))
+        if not self.layout:
+            self.layout = [('g1', 1), ('g2', 2), ('g3', 3)]
+        self.total = Aff({}, 0)
+        self.spans = {}
+        for sym, gid in self.layout:
+            st = self.total
+            self.total = self.total.add(Aff.sym(sym))
+            if gid is not None:
+                self.spans[gid] = (st, self.total, Aff.sym(sym))
+        self.spans[0] = (Aff({}, 0), self.total, self.total)
+
+    def sym(self, gid):
+        return self.spans[gid][2]
 
     def abs_is(self, interp, other):
         return False if other is None else self is other
@@ -101,19 +128,18 @@ class LenMatch(AbstractValue):
 
     def abs_method(self, interp, name, args, kwargs):
         g = args[0] if args else 0
-        lens = {0: self.I.add(self.D).add(self.N), 1: self.I, 2: self.D, 3: self.N}
         if name == 'group':
             if len(args) > 1:
-                return tuple(TabFree(lens[a], 'group%d' % a) for a in args)
-            return TabFree(lens[g], 'group%d' % g)
+                return tuple(TabFree(self.spans[a][2], 'group%d' % a) for a in args)
+            return TabFree(self.spans[g][2], 'group%d' % g)
         if name == 'groups':
-            return tuple(TabFree(lens[a], 'group%d' % a) for a in (1, 2, 3))
+            return tuple(TabFree(self.spans[a][2], 'group%d' % a) for a in sorted(k for k in self.spans if k))
         if name == 'span':
-            return (self.abs_method(interp, 'start', args, kwargs), self.abs_method(interp, 'end', args, kwargs))
+            return (self.spans[g][0], self.spans[g][1])
         if name == 'end':
-            return {0: lens[0], 1: self.I, 2: self.I.add(self.D), 3: lens[0]}[g]
+            return self.spans[g][1]
         if name == 'start':
-            return {0: Aff({}, 0), 1: Aff({}, 0), 2: self.I, 3: self.I.add(self.D)}[g]
+            return self.spans[g][0]
         return Unknown('match.' + name)
 
 
@@ -136,10 +162,13 @@ def rule_marker_arith(ctx, rep):
     rep.instance(rule)
     outs = []
 
+    pv = Interp(model).class_attr(li, 'pattern')
+    ptxt = getattr(pv, 'pattern', None)
+
     def run_(oracle):
         it = Interp(model)
         it.reset_run(oracle)
-        m = LenMatch()
+        m = LenMatch(ptxt)
         it.intrinsics['rx.match'] = lambda interp, a, k: m
         line = TabFree(Aff.sym('L'), 'line')
         r = it.call(it.getattr(li, 'parse_marker'), [line], {})
@@ -147,8 +176,12 @@ def rule_marker_arith(ctx, rep):
     for trace, (r, m) in enumerate_paths(run_, 64):
         conds = [(k, v) for k, v in trace if isinstance(k, tuple) and k and k[0] == 'aff']
         outs.append((r, conds, m))
-    I, D, N = Aff.sym('I'), Aff.sym('D'), Aff.sym('N')
     problems = []
+    lm = LenMatch(ptxt)
+    gids = sorted(k for k in lm.spans if k)
+    if len(gids) < 3:
+        raise AnalysisError('ListItem.pattern has %d capture groups, expected indentation / marker / spaces' % len(gids))
+    I, N, W = lm.sym(gids[0]), lm.sym(gids[-1]), lm.total      # indentation, spaces after the marker, whole marker width
     if not outs:
         problems.append('parse_marker has no path for a matching line')
     for r, conds, m in outs:
@@ -166,11 +199,11 @@ def rule_marker_arith(ctx, rep):
         if big is None:
             problems.append('does not distinguish N > 4 spaces after the marker')
             continue
-        want = I.add(D).add(Aff({}, 1)) if big else I.add(D).add(N)
-        if Aff.lift(ind) != I:
+        want = W.add(N, -1).add(Aff({}, 1)) if big else W
+        if Aff.lift(ind) is None or Aff.lift(ind) != I:
             problems.append('indentation is %r, not len(group 1)' % (ind,))
         if Aff.lift(prepend) is None or Aff.lift(prepend) != want:
-            problems.append('prepend is %r when N %s 4; expected %r' % (prepend, '>' if big else '<=', want))
+            problems.append('prepend is %r when N %s 4; expected %r (N = %r: spaces after the marker)' % (prepend, '>' if big else '<=', want, N))
     ok = not problems
     rep.obligation(rule, ok, {'paths': len(outs), 'results': [repr(o[0][:2]) for o in outs if isinstance(o[0], tuple)]})
     for p_ in sorted(set(problems)):
@@ -270,6 +303,10 @@ def run(ctx):
     # settings of the setext switch that Quote.read flips): shared with C03
     from . import c03
     c03.rule_used(ctx, rep)
+    # the plain text and the wrapped text go through the same Document entry: nothing in it may treat the very
+    # beginning of the input specially (shared with C15)
+    from . import c15
+    c15.rule_normal_form(ctx, rep)
     # R-NEST-PHASE (shared with C07 clause c)
     from . import c07
     cg = ctx.callgraph()
